@@ -174,13 +174,14 @@ struct Client : simk::Actor {
 	std::shared_ptr<simk::Conn> c; bool connected = false, finished = false, refused = false;
 	size_t sent = 0, segi = 0; std::string in; bool eof_seen = false; bool faulted = false;
 	size_t cap_to_server = 4096, cap_to_client = 4096; std::vector<int> read_pace; size_t rpi = 0;
+	int read_delay_ms = 0; int64_t rhold_until = -1; int n_read_pauses = 0;   // a slow reader: pause after every read (below the inactivity time-out), as long as data keeps coming
 	int64_t deadline = -1; int64_t timeout_us = 120LL*1000000; int64_t bad_wait_us = 40LL*1000000; int start_delay_us = 0; int64_t t_created = 0;
 	simk::Rng rng; int n_pauses = 0;
 	const char *name() override { return "client"; }
 	Exchange &E(){ return ex[cur]; }
 	int64_t hold_until = -1;   // slow peer: nothing is sent before this time
 	bool want_send(){ if(!connected || finished || faulted) return false; if(hold_until > simk::now_us()) return false; Exchange &e = E(); if(e.stall && e.close_after >= 0 && (int)sent >= e.close_after) return false; return sent < e.wire.size() && c->send_room() > 0; }
-	bool want_recv(){ return connected && !finished && (c->avail() > 0 || (c->eof() && !eof_seen)); }
+	bool want_recv(){ if(rhold_until > simk::now_us()) return false; return connected && !finished && (c->avail() > 0 || (c->eof() && !eof_seen)); }
 	bool enabled() override {
 		if(finished) return false;
 		if(!connected) return simk::now_us() >= t_created + start_delay_us && simk::is_listening(addr);
@@ -188,7 +189,7 @@ struct Client : simk::Actor {
 		if(!E().well_formed && E().wire.empty() && E().t_sent < 0) return true;
 		return want_send() || want_recv();
 	}
-	int64_t next_time() override { if(finished) return -1; if(!connected) return simk::is_listening(addr) ? t_created + start_delay_us : -1; if(hold_until > simk::now_us() && (deadline < 0 || hold_until < deadline)) return hold_until; return deadline; }
+	int64_t next_time() override { if(finished) return -1; if(!connected) return simk::is_listening(addr) ? t_created + start_delay_us : -1; if(hold_until > simk::now_us() && (deadline < 0 || hold_until < deadline)) return hold_until; if(rhold_until > simk::now_us() && (deadline < 0 || rhold_until < deadline)) return rhold_until; return deadline; }
 	void finish_all(bool early){ for(size_t i=cur;i<ex.size();i++) if(!ex[i].done){ ex[i].done = true; ex[i].conn_closed_early = early; ex[i].t_done = simk::now_us(); } finished = true; if(c) c->close(); }
 	void start_exchange(){ sent = 0; segi = 0; deadline = simk::now_us() + timeout_us; E().t_start = simk::now_us(); if(E().pre_sent){ sent = E().wire.size(); E().t_sent = simk::now_us(); } }
 	void complete_current(){ Exchange &e = E(); e.done = true; e.t_done = simk::now_us(); cur++; if(cur >= ex.size()){ finished = true; c->close(); } else { start_exchange(); if(!in.empty()) try_parse(); } }   // a pipelined response may be here already
@@ -258,6 +259,7 @@ struct Client : simk::Actor {
 		}
 		if(wr){ size_t want = rpi < read_pace.size() && read_pace[rpi] > 0 ? (size_t)read_pace[rpi] : 1u<<20; if(!read_pace.empty()) rpi = (rpi+1) % read_pace.size();
 			size_t k = c->recv(in,want); simk::trace_mix(0xC11F00 + k); if(c->eof()) eof_seen = true;
+			if(read_delay_ms > 0 && k > 0 && n_read_pauses < 400){ int64_t d = read_delay_ms*1000LL; rhold_until = simk::now_us() + d; if(deadline >= 0) deadline += d; n_read_pauses++; }
 			if(E().abort_after >= 0 && (int)in.size() >= E().abort_after && !E().done){ E().aborted = true; c->do_reset(); finish_all(true); return; }
 			try_parse(); }
 	}
@@ -359,11 +361,15 @@ struct E1 : Engine {
 		if(prop == "C12" && r.below(4) == 0){ J fa = J::arr(); int nf = 1 + (int)r.below(3); for(int i=0;i<nf;i++) fa.push((int)r.below(r.below(2) ? 6 : 60)); p["disk_fail_at"] = fa; p["disk_sticky"] = (int)r.below(2); }   // disk full / I/O error while an upload spills to its temporary file
 		p["p_short_read"] = r.below(2) ? (int)r.below(500) : 0; p["p_short_write"] = r.below(2) ? (int)r.below(500) : 0; p["p_eintr"] = faults ? (int)r.below(40) : 0; p["p_spurious"] = faults ? (int)r.below(80) : 0;
 		int nconn = 1 + r.below(prop == "C03" ? 3 : 5);
+		// a slow reader is alone in its plan: wherever a write blocks (a synchronous application on a worker thread, an asynchronous one that chose a blocking io mode) it
+		// legitimately starves the other connections, which is not what is being checked
+		bool slow_reader_plan = (prop == "C03" || prop == "C01") && r.below(12) == 0; if(slow_reader_plan) nconn = 1;
 		J conns = J::arr(); int tagn = 0;
 		for(int ci=0;ci<nconn;ci++){
-			J c = J::obj(); int proto = (int)r.below(3); c["proto"] = proto; bool async_mount = r.below(2); c["async"] = async_mount;
+			J c = J::obj(); int proto = (int)r.below(3); bool async_mount = r.below(2); if(slow_reader_plan){ proto = 0; async_mount = true; } c["proto"] = proto; c["async"] = async_mount;
 			c["cap_to_server"] = (int)(r.below(3) == 0 ? 1 + r.below(64) : 256 + r.below(65536)); c["cap_to_client"] = (int)(r.below(3) == 0 ? 1 + r.below(64) : 256 + r.below(262144));
 			J rp = J::arr(); int nrp = r.below(4); for(int i=0;i<nrp;i++) rp.push((int)(1 + r.below(r.below(2) ? 16 : 5000))); c["read_pace"] = rp; c["start_delay_us"] = (int)r.below(2000);
+			if(slow_reader_plan){ J rp2 = J::arr();   /* asynchronous mounts only: behind a synchronous application a slow reader legitimately ties up a worker thread and starves the other connections */ rp2.push((int)(500 + r.below(3000))); c["read_pace"] = rp2; c["read_delay_ms"] = (int)(cfg.geti("http_timeout",10) * (100 + (int)r.below(300))); c["cap_to_client"] = 2048 + (int)r.below(4096); }   // slow reader: small reads with a pause of 0.1..0.4 x http.timeout after each
 			bool bad_conn = (prop == "C02" && (ci == 0 || r.below(2))) || (prop == "C12" && r.below(4) == 0);   // C12: the last request of a quarter of the connections carries a malformed / mis-sized upload
 			bool http11 = r.below(2); c["http11"] = http11; c["pipeline"] = (int)(r.below(3) == 0); int nreq = proto == 1 ? 1 : 1 + r.below(bad_conn ? 2 : 4); bool ka = nreq > 1 || r.below(3) == 0; c["keepalive"] = ka;
 			{ int narrow = std::min((int)cfg.geti("input_buffer_size"),(int)c.geti("cap_to_server")); gen_budget() = narrow <= 8 ? 2500 : narrow <= 64 ? 16000 : 1u<<30; }
@@ -566,7 +572,7 @@ struct E1 : Engine {
 				const J &conns = plan.get("conns");
 				for(size_t ci=0;ci<conns.size() && ci<8;ci++){ const J &jc = conns.a[ci]; auto cl = std::unique_ptr<Client>(new Client); cl->proto = (int)(((jc.geti("proto") % 3) + 3) % 3); cl->addr = cl->proto == 0 ? "tcp:8080" : cl->proto == 1 ? "tcp:8081" : "tcp:8082";
 					cl->cap_to_server = (size_t)std::max<int64_t>(1,std::min<int64_t>(jc.geti("cap_to_server",4096),1<<20)); cl->cap_to_client = (size_t)std::max<int64_t>(1,std::min<int64_t>(jc.geti("cap_to_client",4096),1<<20));
-					const J &rp = jc.get("read_pace"); for(size_t i=0;i<rp.size();i++) cl->read_pace.push_back((int)rp.a[i].as_int()); cl->start_delay_us = (int)std::max<int64_t>(0,std::min<int64_t>(jc.geti("start_delay_us"),10000000)); cl->t_created = simk::now_us(); cl->rng.seed(sp.fault_seed + ci);
+					const J &rp = jc.get("read_pace"); for(size_t i=0;i<rp.size();i++) cl->read_pace.push_back((int)rp.a[i].as_int()); cl->read_delay_ms = (!jc.geti("async") || plan.get("conns").size() != 1) ? 0 : (int)std::max<int64_t>(0,std::min<int64_t>(jc.geti("read_delay_ms"),std::max<int64_t>(1,cfg.geti("http_timeout",10))*450)); cl->start_delay_us = (int)std::max<int64_t>(0,std::min<int64_t>(jc.geti("start_delay_us"),10000000)); cl->t_created = simk::now_us(); cl->rng.seed(sp.fault_seed + ci);
 					const J &exs = jc.get("ex"); for(size_t i=0;i<exs.size() && i<6;i++){ cl->ex.emplace_back(); build_exchange(exs.a[i],jc,cl->ex.back(),cl->proto); for(auto &d:cl->ex.back().seg_delay_ms) d = (int)std::min<int64_t>(d,std::max<int64_t>(1,cfg.geti("http_timeout",10))*450); }
 					// HTTP/1.1 pipelining: the next request is sent right behind the previous one, before its response has been read
 					if(jc.geti("pipeline") && cl->proto == 0 && jc.geti("http11") && jc.geti("keepalive")){
@@ -684,7 +690,7 @@ struct E1 : Engine {
 		if(res.ok && leaked) res.fail("descriptor-leak",std::to_string(leaked) + " simulated descriptors still open after the service was destroyed");
 		if(res.ok && !aw.exception.empty()) res.fail("exception-escaped",aw.exception);
 		res.counters["raw_mode_responses"] = n_raw; res.counters["client_aborts_mid_response"] = n_aborted; res.counters["filter_on_error_calls"] = n_on_error; res.counters["content_filter_requests"] = n_filtered; res.counters["filters_installed"] = aw.filters_installed; res.counters["over_limit_413"] = n_over_limit; res.counters["gzip_announced_empty_body"] = n_gzip_empty; res.counters["malformed_exchanges"] = n_bad; res.counters["malformed_refused_as_required"] = n_bad_refused; res.counters["page_cache_hits"] = n_cache_hits; res.counters["exchanges"] = n_ex; res.counters["multi_segment_requests"] = n_multi_seg; res.counters["requests_with_body"] = n_body; res.counters["keepalive_followups"] = n_keepalive_followups; res.counters["writer_responses"] = n_writer; res.counters["gzip_responses"] = n_gzip; res.counters["chunked_responses"] = n_chunked;
-		{ long long np = 0; for(auto &cl:clients) np += cl->n_pauses; res.counters["slow_peer_pauses"] = np; }
+		{ long long np = 0, nr = 0; for(auto &cl:clients){ np += cl->n_pauses; nr += cl->n_read_pauses; } res.counters["slow_peer_pauses"] = np; res.counters["slow_reader_pauses"] = nr; }
 		res.counters["pipelined_requests"] = n_pipelined;
 		res.counters["disk_faults_injected"] = (long long)st.stdio_fail; res.counters["upload_spill_stdio_calls"] = (long long)st.stdio_ops; res.counters["uploads_refused_after_disk_fault"] = n_disk_refused;
 		res.counters["steps"] = (long long)st.steps; res.counters["switches"] = (long long)st.switches; res.counters["short_reads"] = (long long)st.short_reads; res.counters["short_writes"] = (long long)st.short_writes; res.counters["eagain"] = (long long)(st.eagain_r + st.eagain_w);
